@@ -4,6 +4,7 @@
 package main
 
 import (
+	"context"
 	"fmt"
 	"math/big"
 	"sort"
@@ -13,6 +14,7 @@ import (
 	"github.com/NethermindEth/juno/core"
 	"github.com/NethermindEth/juno/core/crypto"
 	"github.com/NethermindEth/juno/core/felt"
+	"github.com/NethermindEth/juno/core/state"
 	"github.com/NethermindEth/juno/core/trie"
 	"github.com/NethermindEth/juno/core/trie2"
 	"github.com/NethermindEth/juno/core/trie2/triedb/rawdb"
@@ -20,6 +22,9 @@ import (
 	"github.com/NethermindEth/juno/core/trie2/trieutils"
 	"github.com/NethermindEth/juno/db"
 	"github.com/NethermindEth/juno/db/memory"
+	"github.com/NethermindEth/juno/blockchain/networks"
+	"github.com/NethermindEth/juno/migration/state/headstate"
+	"github.com/NethermindEth/juno/utils/log"
 	"verifharness/chain"
 	"verifharness/hx"
 	"verifharness/term"
@@ -563,6 +568,11 @@ type stateCase struct {
 	Blocks []string `json:"blocks"` // oracle syntax, one string per block
 	NewSt  bool     `json:"new_state"`
 	Reopen []int    `json:"reopen"`
+	// MigrateAfter (new state backend only): after these blocks every contract record goes through the head-state
+	// migration (migration/state/headstate: the record is rebuilt from the legacy per-field buckets and its
+	// StorageRoot is left zero "to be backfilled lazily") and the node restarts - a database that was switched to the
+	// new state must keep committing to the same roots
+	MigrateAfter []int `json:"migrate_after,omitempty"`
 }
 
 func btoi(b bool) int {
@@ -703,6 +713,9 @@ func genStateCase(r *hx.RNG) (stateCase, []chain.BlockSpec) {
 		if r.Chance(25) {
 			sc.Reopen = append(sc.Reopen, b)
 		}
+	}
+	if sc.NewSt && len(sc.Blocks) >= 2 && r.Chance(35) {
+		sc.MigrateAfter = append(sc.MigrateAfter, r.Intn(len(sc.Blocks)-1))
 	}
 	return sc, specs
 }
@@ -850,11 +863,64 @@ func runState(sc stateCase, specs []chain.BlockSpec) ([]string, error) {
 			return roots, fmt.Errorf("block %d: %w", i, err)
 		}
 		roots = append(roots, b.Block.GlobalStateRoot.String())
+		for _, m := range sc.MigrateAfter {
+			if m == i && sc.NewSt {
+				if err := headStateMigrate(database, specs[:i+1]); err != nil {
+					return roots, fmt.Errorf("head-state migration after block %d: %w", i, err)
+				}
+				seq = seq.Reopen(sc.NewSt)
+			}
+		}
 		if reopen[i] {
 			seq = seq.Reopen(sc.NewSt)
 		}
 	}
 	return roots, nil
+}
+
+// headStateMigrate puts every contract's head fields where the legacy state keeps them, drops the consolidated record
+// and lets the real head-state migrator rebuild it (the state of a database that has just been switched over).
+func headStateMigrate(database db.KeyValueStore, specs []chain.BlockSpec) error {
+	addrs := map[uint64]bool{1: true, 2: true}
+	for i := range specs {
+		for a := range specs[i].Deploy {
+			addrs[a] = true
+		}
+	}
+	n := 0
+	for a := range addrs {
+		addr := chain.F(a)
+		rec, err := state.GetContract(database, addr)
+		if err != nil {
+			continue // not deployed
+		}
+		if err := state.DeleteContract(database, addr); err != nil {
+			return err
+		}
+		if err := core.WriteContractClassHash(database, addr, &rec.ClassHash); err != nil {
+			return err
+		}
+		if err := core.WriteContractNonce(database, addr, &rec.Nonce); err != nil {
+			return err
+		}
+		if err := core.WriteContractDeploymentHeight(database, addr, rec.DeployedHeight); err != nil {
+			return err
+		}
+		n++
+	}
+	if n == 0 {
+		return nil
+	}
+	_, err := headstate.Migrator{}.Migrate(context.Background(), database, &networks.Sepolia, log.NewNopZapLogger())
+	if err != nil {
+		return err
+	}
+	for a := range addrs {
+		if rec, err := state.GetContract(database, chain.F(a)); err == nil && !rec.StorageRoot.IsZero() {
+			return fmt.Errorf("contract %x: the migrator was expected to leave StorageRoot zero", a)
+		}
+	}
+	return nil
 }
 
 func main() {
@@ -941,6 +1007,9 @@ func main() {
 		_ = specs
 		class, what, _ := evalState(or, sc)
 		c.Hist[fmt.Sprintf("state_newstate_%v_pre014_%v", sc.NewSt, sc.Pre)]++
+		if len(sc.MigrateAfter) > 0 {
+			c.Hist["state_head_state_migrated_mid_chain"]++
+		}
 		for _, bl := range sc.Blocks {
 			if strings.Contains(bl, "mig:") {
 				c.Hist["state_blocks_with_casm_migration"]++
